@@ -134,6 +134,7 @@ func init() {
 			{"sectpr-last", "shape of Body.MarshalXML", ruleSectPrLast},
 			{"no-element-cache", "no Document field other than Body points at body elements", ruleNoElementCache},
 			{"marshal-pure", "serialising does not modify the model (mutation summaries + append into a reslice of the receiver)", ruleMarshalPure},
+			{"remove-typed", "RemoveParagraph* splice the body only at a position where a *Paragraph was found (ok-branch of the type assertion on that element, through finder helpers)", ruleRemoveTyped},
 		},
 		Assumptions: commonAssumptions,
 	}
@@ -149,6 +150,7 @@ func init() {
 			{"loop-fresh", "table elements inserted in a loop are constructed in that loop", ruleLoopFresh},
 			{"prefix-append", "no append of new elements to a prefix of a slice whose tail is still needed", rulePrefixAppend},
 			{"grid-bound", "index and slice bounds on t.Grid.Cols follow from the dominating comparisons (difference-bound proof per use)", ruleGridBound},
+			{"col-all-rows", "column insertions/deletions rewrite every row (no skipping iteration in the loop over t.Rows)", ruleColAllRows},
 		},
 		Assumptions: commonAssumptions,
 	}
